@@ -1,6 +1,6 @@
 """Class family for C17: one class per reduction shape of the copy/pickle protocol, with structural equality, plus a canonical
 form of object graphs (identity numbering, cycles) so that the YAML rebuild and the pickle-2 rebuild can be compared."""
-import enum, collections, math, os.path, types
+import enum, collections, math, os.path, types, dataclasses
 
 class PlainDict:
     def __init__(self, **kw): self.__dict__.update(kw)
@@ -63,6 +63,19 @@ class Tracking(list):
     def append(self, x): self.seen += 1; list.append(self, x)
     def extend(self, xs):
         for x in xs: self.append(x)
+@dataclasses.dataclass(frozen=True, eq=False)
+class Frozen:
+    """instance-dict class that refuses attribute assignment: pickle's BUILD fills __dict__ directly, never through setattr"""
+    x: object = None
+    y: object = None
+class Sealed:
+    """__setattr__ raises once the object is sealed; the state is an ordinary __dict__"""
+    def __init__(self, **kw): self.__dict__.update(kw); self.__dict__['sealed'] = True
+    def __setattr__(self, name, value): raise AttributeError('%s is sealed' % type(self).__name__)
+class Shadowed:
+    """a read-only property shadows an entry of the instance dictionary"""
+    size = property(lambda self: len(self.__dict__))
+    def __init__(self, **kw): self.__dict__.update(kw); self.__dict__['size'] = 'in dict'
 class Color(enum.Enum):
     RED = 1; BLUE = 2
 Point = collections.namedtuple('Point', 'x y')
@@ -112,7 +125,7 @@ def build(rng, depth, pool, allow_special=True):
     if depth <= 0 or r < 0.3:
         return rng.choice([None, True, 3, -1.5, 'text', 'yes', b'by', (1, 'a'), 2 + 3j, Color.RED, Color.BLUE, Point(1, 2), PlainDict, some_function, collections.OrderedDict, len, (), float('inf'), os.path.join])
     sub = lambda: build(rng, depth - 1, pool, allow_special)
-    kinds = ['upperkeys', 'doubling', 'plain', 'slots', 'slotschild', 'slotsdict', 'getset', 'getsettuple', 'newargs', 'reducelist', 'reducedict', 'listsub', 'dictsub', 'listsubattr', 'list', 'dict', 'tuple', 'odict', 'set', 'point']
+    kinds = ['upperkeys', 'doubling', 'plain', 'slots', 'slotschild', 'slotsdict', 'getset', 'getsettuple', 'newargs', 'reducelist', 'reducedict', 'listsub', 'dictsub', 'listsubattr', 'list', 'dict', 'tuple', 'odict', 'set', 'point', 'frozen', 'sealed', 'shadowed']
     k = rng.choice(kinds)
     if k == 'upperkeys': o = UpperKeys({'raw%d' % i: sub() for i in range(rng.choice([0, 1, 2]))})       # built through dict(): keys are still raw
     elif k == 'doubling': o = Doubling({'k%d' % i: rng.choice([1, 'ab', 2.5]) for i in range(rng.choice([0, 1, 2]))})
@@ -137,6 +150,9 @@ def build(rng, depth, pool, allow_special=True):
     elif k == 'tuple': o = tuple(sub() for _ in range(rng.choice([1, 2, 3])))
     elif k == 'odict': o = collections.OrderedDict([('k%d' % i, sub()) for i in range(rng.choice([0, 1, 3]))])
     elif k == 'set': o = set(rng.sample([1, 2, 'a', 'b', (1, 2), None], rng.choice([0, 1, 3])))
+    elif k == 'frozen': o = Frozen(sub(), sub())
+    elif k == 'sealed': o = Sealed(p=sub(), q=sub())
+    elif k == 'shadowed': o = Shadowed(p=sub())
     else: o = Point(sub(), sub())
     if isinstance(o, (list, dict)) or hasattr(o, '__dict__'): pool.append(o)
     return o
